@@ -582,6 +582,10 @@ def d7(cx: Cx, ob: Ob) -> None:
 
             if not all(filterish(a) for a, _ in way):
                 continue
+            # a string that is empty (or blank) holds no delimiter and no identifier: skipping it changes nothing
+            blank = any(pol is False and (a == uri or a == ("call", ("attr", uri, "strip"), (), ())) for a, pol in way)
+            if blank:
+                continue
             if not (known or github):
                 ob.violate(
                     fn.qualname,
